@@ -647,9 +647,89 @@ u_reconf(uint64_t idx, void *arg)
     *vh_ncases += ncase;
 }
 
+/* a medium whose write driver stops at page boundaries and reports the short count (an EEPROM page writer): the
+ * library may give up on such a write (IO error, nothing is required of the medium then: C11) - but when a store
+ * reports success, the medium validates, holds the model and carries the configured checksum over it */
+static void
+u_pages(uint64_t idx, void *arg)
+{
+    (void)arg;
+    static const size_t pages[] = { 2, 3, 4, 8 };
+    const size_t page = pages[idx % 4], size = 1 + (idx / 4) % 9;
+    const int ck = (int)((idx / 36) % NCK);
+    const size_t cks = ps_cksize(ck);
+    unsigned char model[16], img[16];
+    unsigned nok = 0, nio = 0;
+    for (uint32_t place = 0; place < 2 * page; place++)
+        for (int aux_on = 0; aux_on < 2; aux_on++) {
+            vh_arena_reset();
+            ps_medium_setup(place, cks + size);
+            memset(ps_medium, 0x3C, cks + size);
+            size_t auxsize = aux_on ? 1 + (place + size) % 5 : 0;
+            unsigned char *aux = aux_on ? vh_arena(auxsize) : NULL;
+            PersistentStorage st;
+            ps_configure(&st, size, place, ck, aux, auxsize, aux_on);
+            char key[96], ctx[160];
+            snprintf(key, sizeof key, "%s medium=page-writer", cfgkey(ck, aux_on, auxsize));
+            VH_CASE4(size, place, ck, page);
+            /* a valid image first, written by a driver that takes everything */
+            ps_page = 0;
+            for (size_t i = 0; i < size; i++)
+                model[i] = (unsigned char)(0x10 + i);
+            if (persistent_store(&st, model) != PERSISTENT_ACCESS_SUCCESS) {
+                vh_fail("store-rc", key, "size=%zu place=%u: plain store fails", size, place);
+                continue;
+            }
+            for (int op = 0; op < 3; op++) {
+                for (size_t i = 0; i < size; i++)
+                    img[i] = (unsigned char)(0xA0 + 16 * op + i);
+                size_t off = op == 2 ? size / 2 : 0, n = op == 2 ? size - size / 2 : size;
+                ps_page = page;
+                ps_page_cuts = 0;
+                ps_log_reset();
+                PersistentAccess rc = op == 1 ? persistent_reset(&st, 0x77)
+                                      : op == 2 ? persistent_store_part(&st, img, off, n) : persistent_store(&st, img);
+                ps_page = 0;
+                snprintf(ctx, sizeof ctx, "size=%zu place=%u page=%zu auxsize=%zu %s (%u writes cut at a page boundary)", size, place, page,
+                         auxsize, op == 1 ? "reset" : op == 2 ? "store_part" : "store", ps_page_cuts);
+                ncase++;
+                if (rc == PERSISTENT_ACCESS_SUCCESS) {
+                    if (op == 1)
+                        memset(model, 0x77, size);
+                    else
+                        memcpy(model + off, img, n);
+                    expect_valid_state(&st, ck, size, op == 1 ? NULL : model, key, ctx);
+                    if (op == 1)
+                        for (size_t i = 0; i < cks + size; i++)
+                            if (ps_medium[i] != 0x77) {
+                                vh_fail("reset-fill", key, "%s: region %s", ctx, vh_hex(ps_medium, cks + size));
+                                break;
+                            }
+                    nok++;
+                } else if (rc == PERSISTENT_ACCESS_IO_ERROR && ps_page_cuts) {
+                    nio++;
+                    /* start over from a valid image */
+                    for (size_t i = 0; i < size; i++)
+                        model[i] = (unsigned char)(0x10 + i);
+                    if (persistent_store(&st, model) != PERSISTENT_ACCESS_SUCCESS)
+                        vh_fail("store-rc", key, "%s: plain store fails afterwards", ctx);
+                } else {
+                    vh_fail("store-rc", key, "%s: rc=%d", ctx, rc);
+                }
+            }
+        }
+    VH_COUNTN("page writer: operation reported success (medium judged)", nok);
+    VH_COUNTN("page writer: operation given up with an IO error", nio);
+    VH_COUNT("medium whose writes stop at page boundaries");
+    vh_sig(0x10d00000ull ^ idx);
+}
+
 void
 harness_run(void)
 {
+    for (uint64_t i = 0; i < 36u * NCK; i++)
+        vh_unit("pages", i, u_pages, NULL);
+    vh_require("medium whose writes stop at page boundaries");
     static const size_t quick_sizes[] = { 1, 2, 3, 4, 5, 7, 8, 9, 15, 16, 17, 31, 32, 33, 40 };
     if (vh_tier) {
         for (uint64_t s = 1; s <= 130; s++)
